@@ -157,7 +157,7 @@ func uncompressIndices(indices interface{}) ([]int, error) {
 				return nil, fmt.Errorf("uncompressIndices: index array[1] is not a number: %v", index[1])
 			}
 
-			for i := start; i <= end; i++ {
+			for i := start; i < start+end; i++ {
 				uncompressedIndices = append(uncompressedIndices, int(i))
 			}
 		case float64:
